@@ -303,7 +303,7 @@ macro_rules! projections {
         }
     }};
     (@p3a yes, $forms:ident, $M4:ident, $m:ident, $pv:ident) => {
-        $forms.push(("project_point3a", { let g = <$M4>::from_cols_array(&$m).project_point3a(Vec3A::from($pv)); [g.x as f64, g.y as f64, g.z as f64] }));
+        $forms.push(("project_point3a", { let g = <$M4>::from_cols_array(&$m).project_point3a(<Vec3A as crate::gen::FromLanes<f32, 3>>::mk($pv.to_array())); [g.x as f64, g.y as f64, g.z as f64] }));
     };
     (@p3a no, $forms:ident, $M4:ident, $m:ident, $pv:ident) => {};
 }
